@@ -113,6 +113,18 @@ func runFields(r *ev.Run, rp *reporter) {
 			ucase{v.name + "/SetAllGroupBundles(override)", opSpec{Kind: kSetAllGroupBundles, OverrideAll: true, Bundles: []bundleSpec{pd, bundleA(grp, n)}}},
 			ucase{v.name + "/get-edit-set", opSpec{Kind: kGetModifySet, Mod: v.mod(&n)}})
 	}
+	// in-place edits at every depth of the rule that GetRule returned, followed by an accepted
+	// SetRule, a refused SetRule, or nothing
+	for _, f := range inPlaceFields {
+		str := "x"
+		if f == "in:cons[0].op" {
+			str = "notIn"
+		}
+		for _, then := range []string{"", "reject", "none"} {
+			cases = append(cases, ucase{f + "/get-edit-in-place/" + map[string]string{"": "SetRule", "reject": "refused-SetRule", "none": "no-SetRule"}[then],
+				opSpec{Kind: kGetModifySet, Mod: &modSpec{Group: "a", ID: "r1", Field: f, Str: str, Then: then}}})
+		}
+	}
 	for _, gv := range []struct {
 		name string
 		g    groupSpec
@@ -141,7 +153,7 @@ func runFields(r *ev.Run, rp *reporter) {
 		if !ok {
 			continue
 		}
-		if _, acc := accepts(x.md, c.op); !acc {
+		if _, acc := accepts(x.md, c.op); !acc && (c.op.Mod == nil || c.op.Mod.Then != "reject") {
 			r.Count("single_field_case_not_acceptable", 1) // generator error: never expected
 			continue
 		}
